@@ -2,7 +2,7 @@
      1. the statement sequences of Model/ItemsEqTab.v, interpreted, ARE the model's functions
           itemsNeedSwapping        = needs_swap                   (on non-nil arguments, where ItemsEqual calls it)
           ItemCollection.Contains  = contains_m
-          ItemCollection.Equals    = itemcoll_equals cfg_fixed
+          ItemCollection.Equals    = itemcoll_equals cfg_fixed   (the one-to-one matching: all_matched / find_unused)
           ItemsEqual               = items_equal_body cfg_fixed   (object_branch included)
           IRIs.Contains            = iris_contains
           NaturalLanguageValues.Equals = nl_equals
@@ -62,6 +62,7 @@ Proof.
            | IH : forall b, stmt_beq ?x b = true -> ?x = b, H : stmt_beq ?x _ = true |- _ => apply IH in H
            | H : bexp_beq _ _ = true |- _ => apply bexp_beq_eq in H
            | H : texp_beq _ _ = true |- _ => apply texp_beq_eq in H
+           | H : nexp_beq _ _ = true |- _ => apply nexp_beq_eq in H
            | H : view_beq _ _ = true |- _ => apply view_beq_eq in H
            end; by_bytes.
 Qed.
@@ -349,33 +350,164 @@ Section ItemCollEquals.
   Lemma sem_contains_model lo r : sem_contains tbl rec1 lo r = contains_m rec2 (lst lo) r.
   Proof. unfold sem_contains, run_named. rewrite Hcontains. apply contains_model. exact Hrec. Qed.
 
-  Definition est (I W : dval) (wl : list item) (T : bytes) (t : option dval) (res : bool) : dstate :=
-    mkst ([(B "i", I); (B "with", W); (B "w", VItem (IItems true (Some wl)))]
-            ++ match t with Some y => [(B "it", y)] | None => [] end)
-         [(B "typ", T)] [(B "result", res)].
+  (* the new statement forms, one step at a time *)
+  Lemma exec_foridx E j v coll body s :
+    exec E (SForIdx j v coll body) s
+    = match vget coll (st_vals s) with
+      | Some d => match range_of d with
+                  | Some l => for_loop_idx (fun k x s' => exec E body (bind v x (bind j (VNat k) s'))) 0 l s
+                  | None => Err
+                  end
+      | None => Err
+      end.
+  Proof. reflexivity. Qed.
+  Lemma exec_declbools E v n s :
+    exec E (SDeclBools v n) s = obind (ev_nexp s n) (fun k => Ok (SgNormal (bind v (VBools (repeat false k)) s))).
+  Proof. reflexivity. Qed.
+  Lemma exec_setidx E v j e s :
+    exec E (SSetIdx v j e) s
+    = match vget v (st_vals s), vget j (st_vals s) with
+      | Some (VBools l), Some (VNat k) =>
+          obind (ev_b E s e) (fun b => match set_nth l k b with
+                                       | Some l' => Ok (SgNormal (bind v (VBools l') s))
+                                       | None => Panic IndexOutOfRange
+                                       end)
+      | _, _ => Err
+      end.
+  Proof. reflexivity. Qed.
+  Lemma for_loop_idx_cons step k x r s :
+    for_loop_idx step k (x :: r) s
+    = obind (step k x s) (fun g => match g with
+                                   | SgNormal s' => for_loop_idx step (S k) r s'
+                                   | SgBreak s' => Ok (SgNormal s')
+                                   | other => Ok other
+                                   end).
+  Proof. reflexivity. Qed.
+  Lemma ev_idx E s v j :
+    ev_b E s (BIdx v j)
+    = match vget v (st_vals s), vget j (st_vals s) with
+      | Some (VBools l), Some (VNat k) => match nth_error l k with Some b => Ok b | None => Panic IndexOutOfRange end
+      | _, _ => Err
+      end.
+  Proof. reflexivity. Qed.
 
-  Lemma all_contained_loop I W wl T body l :
-    body = SSeq (SIf (BNot (BMethod n_ic_contains (B "w") [v_it]))
-                     (SSeq (SSetBool v_result (BConst false)) (SSeq SReturnNil SSkip)) SSkip) SSkip ->
-    forall t, exists t',
-    for_loop (fun x s' => exec (env_contains tbl rec1) body (bind v_it x s')) (map VItem l) (est I W wl T t true)
-    = obind (all_contained cfg_fixed rec2 l wl)
-            (fun b => Ok (if b then SgNormal (est I W wl T t' true) else SgRetNil (est I W wl T t' false))).
+  Lemma nth_mid (pre : list bool) u ut : nth_error (pre ++ u :: ut) (length pre) = Some u.
+  Proof. induction pre as [|a p IH]; [reflexivity|exact IH]. Qed.
+  Lemma set_mid (pre : list bool) u ut b : set_nth (pre ++ u :: ut) (length pre) b = Some (pre ++ b :: ut).
+  Proof. induction pre as [|a p IH]; [reflexivity|]. cbn [app length set_nth]. rewrite IH. reflexivity. Qed.
+
+  Lemma find_unused_len rec w x : forall used r, find_unused rec w used x = Ok (Some r) -> length r = length used.
   Proof.
-    intros ->. induction l as [|x l IH]; intro t.
-    - exists t. reflexivity.
-    - cbn [map all_contained c_member_items cfg_fixed]. rewrite for_loop_cons.
-      assert (exec (env_contains tbl rec1)
-                (SSeq (SIf (BNot (BMethod n_ic_contains (B "w") [v_it]))
-                           (SSeq (SSetBool v_result (BConst false)) (SSeq SReturnNil SSkip)) SSkip) SSkip)
-                (bind v_it (VItem x) (est I W wl T t true))
-              = obind (contains_m rec2 wl x)
-                      (fun b => Ok (if b then SgNormal (est I W wl T (Some (VItem x)) true)
-                                    else SgRetNil (est I W wl T (Some (VItem x)) false)))) as ->.
-      { unfold est, v_it, v_result. destruct t; cbn [app]; sx.
-        all: rewrite sem_contains_model; cbn [lst]; destruct (contains_m rec2 wl x) as [[|]| | |]; sx; reflexivity. }
-      destruct (contains_m rec2 wl x) as [[|]| | |]; cbn [obind]; try (exists (Some (VItem x)); reflexivity).
-      apply IH.
+    induction w as [|m t IH]; intros used r H; [discriminate|].
+    destruct used as [|[|] ut]; cbn [find_unused] in H; [discriminate| |].
+    - destruct (find_unused rec t ut x) as [[r'|]| | |] eqn:E; try discriminate. injection H as <-.
+      cbn [length]. f_equal. eapply IH; eauto.
+    - destruct (rec m x) as [[|]| | |]; try discriminate; cbn [obind] in H.
+      + injection H as <-. reflexivity.
+      + destruct (find_unused rec t ut x) as [[r'|]| | |] eqn:E; try discriminate. injection H as <-.
+        cbn [length]. f_equal. eapply IH; eauto.
+  Qed.
+
+  (* the states of the loops: `it` is unbound before the first round of the outer loop, `j` and `wit` before the first
+     round of the first inner loop, `found` before the first round of the outer loop *)
+  Definition tl_of (t : option (dval * option (nat * dval))) : list (var * dval) :=
+    match t with
+    | None => []
+    | Some (x, None) => [(B "it", x)]
+    | Some (x, Some (k, y)) => [(B "it", x); (B "j", VNat k); (B "wit", y)]
+    end.
+  Definition fb_of (f : option bool) : list (var * bool) := match f with None => [] | Some b => [(B "found", b)] end.
+  Definition est (I W : dval) (wl : list item) (T : bytes) (u : list bool) (t : option (dval * option (nat * dval)))
+             (res : bool) (f : option bool) : dstate :=
+    mkst ([(B "i", I); (B "with", W); (B "w", VItem (IItems true (Some wl))); (B "used", VBools u)] ++ tl_of t)
+         [(B "typ", T)] ((B "result", res) :: fb_of f).
+
+  Definition inner_ic : stmt :=
+    SSeq (SIf (BAnd (BNot (BIdx (B "used") (B "j"))) (BCall n_items_equal [B "wit"; v_it]))
+              (SSeq (SSetIdx (B "used") (B "j") (BConst true)) (SSeq (SSetBool (B "found") (BConst true)) (SSeq SBreak SSkip)))
+              SSkip) SSkip.
+  Definition inner_step_ic (k : nat) (x : dval) (s' : dstate) : outcome signal :=
+    exec (env_contains tbl rec1) inner_ic (bind (B "wit") x (bind (B "j") (VNat k) s')).
+
+  Lemma inner_step_model I W wl T pre u ut x tj m :
+    inner_step_ic (length pre) (VItem m) (est I W wl T (pre ++ u :: ut) (Some (VItem x, tj)) true (Some false))
+    = if u then Ok (SgNormal (est I W wl T (pre ++ u :: ut) (Some (VItem x, Some (length pre, VItem m))) true (Some false)))
+      else obind (rec2 m x)
+             (fun b => Ok (if b then SgBreak (est I W wl T (pre ++ true :: ut) (Some (VItem x, Some (length pre, VItem m))) true (Some true))
+                           else SgNormal (est I W wl T (pre ++ u :: ut) (Some (VItem x, Some (length pre, VItem m))) true (Some false)))).
+  Proof.
+    rewrite <- Hrec. unfold inner_step_ic, inner_ic, est, tl_of, fb_of, v_it.
+    destruct tj as [[k0 y0]|]; cbn [app].
+    all: rewrite exec_seq, exec_if; evs; rewrite nth_mid; destruct u; sx; try reflexivity.
+    all: destruct (rec1 m x) as [[|]| | |]; sx; try reflexivity.
+    all: rewrite exec_setidx; evs; rewrite set_mid; sx; reflexivity.
+  Qed.
+
+  Lemma inner_loop_ic I W wl T x : forall t pre ut tj, length ut = length t -> exists tj',
+    for_loop_idx inner_step_ic (length pre) (map VItem t) (est I W wl T (pre ++ ut) (Some (VItem x, tj)) true (Some false))
+    = obind (find_unused rec2 t ut x)
+        (fun r => Ok (SgNormal (match r with
+                                | Some u' => est I W wl T (pre ++ u') (Some (VItem x, tj')) true (Some true)
+                                | None => est I W wl T (pre ++ ut) (Some (VItem x, tj')) true (Some false)
+                                end))).
+  Proof.
+    induction t as [|m t IH]; intros pre ut tj Hlen.
+    - exists tj. destruct ut; [reflexivity|discriminate].
+    - destruct ut as [|u ut]; [discriminate|]. injection Hlen as Hlen.
+      cbn [map]. rewrite for_loop_idx_cons, inner_step_model.
+      assert (Hpre : S (length pre) = length (pre ++ [u])) by (rewrite app_length; cbn [length]; lia).
+      assert (Happ : forall z, pre ++ u :: z = (pre ++ [u]) ++ z) by (intro z; rewrite <- app_assoc; reflexivity).
+      destruct u; cbn [find_unused obind].
+      + rewrite Hpre, (Happ ut). destruct (IH (pre ++ [true]) ut (Some (length pre, VItem m)) Hlen) as [tj' ->].
+        exists tj'. destruct (find_unused rec2 t ut x) as [[r|]| | |]; cbn [obind option_map]; try reflexivity.
+        rewrite (Happ r). reflexivity.
+      + destruct (rec2 m x) as [[|]| | |]; cbn [obind]; try (exists None; reflexivity).
+        * eexists. reflexivity.
+        * rewrite Hpre, (Happ ut). destruct (IH (pre ++ [false]) ut (Some (length pre, VItem m)) Hlen) as [tj' ->].
+          exists tj'. destruct (find_unused rec2 t ut x) as [[r|]| | |]; cbn [obind option_map]; try reflexivity.
+          rewrite (Happ r). reflexivity.
+  Qed.
+
+  Definition outer_ic : stmt :=
+    SSeq (SDeclBool (B "found") (BConst false))
+      (SSeq (SForIdx (B "j") (B "wit") (B "w") inner_ic)
+         (SSeq (SIf (BNot (BVar (B "found"))) (SSeq (SSetBool v_result (BConst false)) (SSeq SReturnNil SSkip)) SSkip) SSkip)).
+
+  Lemma outer_step_ic I W wl T u t f x : length u = length wl -> exists tj',
+    exec (env_contains tbl rec1) outer_ic (bind v_it (VItem x) (est I W wl T u t true f))
+    = obind (find_unused rec2 wl u x)
+        (fun r => Ok (match r with
+                      | Some u' => SgNormal (est I W wl T u' (Some (VItem x, tj')) true (Some true))
+                      | None => SgRetNil (est I W wl T u (Some (VItem x, tj')) false (Some false))
+                      end)).
+  Proof.
+    intro Hlen.
+    assert (exists tj, exec (env_contains tbl rec1) (SDeclBool (B "found") (BConst false)) (bind v_it (VItem x) (est I W wl T u t true f))
+                       = Ok (SgNormal (est I W wl T u (Some (VItem x, tj)) true (Some false)))) as [tj H0].
+    { unfold est, tl_of, fb_of, v_it. destruct t as [[x0 [[k0 y0]|]]|]; [exists (Some (k0, y0))|exists None|exists None].
+      all: destruct f; cbn [app]; sx; reflexivity. }
+    destruct (inner_loop_ic I W wl T x wl [] u tj Hlen) as [tj' Hl]. cbn [app length] in Hl. exists tj'.
+    unfold outer_ic. rewrite exec_seq, H0. cbn [obind]. rewrite exec_seq, exec_foridx.
+    assert (vget (B "w") (st_vals (est I W wl T u (Some (VItem x, tj)) true (Some false))) = Some (VItem (IItems true (Some wl)))) as ->
+      by (unfold est; cbn [st_vals app]; lk; reflexivity).
+    cbn [range_of lst].
+    change (for_loop_idx _ 0 (map VItem wl) ?s) with (for_loop_idx inner_step_ic 0 (map VItem wl) s).
+    rewrite Hl.
+    destruct (find_unused rec2 wl u x) as [[u'|]| | |]; cbn [obind]; try reflexivity.
+    all: unfold est, tl_of, fb_of, v_result; destruct tj' as [[k1 y1]|]; cbn [app]; sx; reflexivity.
+  Qed.
+
+  Lemma all_matched_loop I W wl T l : forall u t f, length u = length wl -> exists u' t' f',
+    for_loop (fun x s' => exec (env_contains tbl rec1) outer_ic (bind v_it x s')) (map VItem l) (est I W wl T u t true f)
+    = obind (all_matched rec2 l wl u)
+            (fun b => Ok (if b then SgNormal (est I W wl T u' t' true f') else SgRetNil (est I W wl T u' t' false f'))).
+  Proof.
+    induction l as [|x l IH]; intros u t f Hlen.
+    - exists u, t, f. reflexivity.
+    - cbn [map all_matched]. rewrite for_loop_cons. destruct (outer_step_ic I W wl T u t f x Hlen) as [tj' ->].
+      destruct (find_unused rec2 wl u x) as [[u1|]| | |] eqn:Ef; cbn [obind]; try (exists u, t, f; reflexivity).
+      + apply IH. rewrite (find_unused_len _ _ _ _ _ Ef). exact Hlen.
+      + eexists _, _, _. reflexivity.
   Qed.
 
   Lemma iceq_model lo w :
@@ -383,22 +515,22 @@ Section ItemCollEquals.
     = itemcoll_equals cfg_fixed rec2 (lst lo) w.
   Proof.
     open_fn m_ic_equals. unfold itemcoll_equals, v_with, v_result.
-    assert (forall (P : Prop), (is_nil w = false -> P) -> (is_nil w = true -> P) -> P) as Hcase
-        by (intros P H1 H2; destruct (is_nil w); auto).
     destruct lo as [l|]; cbn [lst]; sx.
     all: destruct (is_nil w) eqn:Hn; sx; [try (destruct l); reflexivity|].
     all: rewrite (is_collection_call_nn w Hn); sx.
     all: destruct (is_collection_m w); sx; [|reflexivity].
-    all: rewrite (get_type_nn w Hn); sx; cbn [c_iris_lists cfg_fixed andb].
+    all: rewrite (get_type_nn w Hn); sx; cbn [c_iris_lists c_match_once cfg_fixed andb].
     all: change collection_of_items with (B "ItemCollection"); change collection_of_iris with (B "IRICollection").
     all: destruct (bytes_eqb (typ w) (B "ItemCollection")); [|destruct (bytes_eqb (typ w) (B "IRICollection"))]; sx;
       try reflexivity.
     all: destruct (to_item_collection w) as [wl|] eqn:Hw; cbn [view_of]; rewrite Hw; sx; try reflexivity.
     all: cbn [length]; rewrite (Nat.eqb_sym (length wl)).
     all: match goal with |- context [negb (Nat.eqb ?a ?b)] => destruct (Nat.eqb a b) end; sx; try reflexivity.
-    all: destruct (all_contained_loop (VItem (IItems false (Some l))) (VItem w) wl (typ w) _ l eq_refl None) as [t' Hl].
-    all: use_loop Hl; clear Hl.
-    all: destruct (all_contained cfg_fixed rec2 l wl) as [[|]| | |]; sx; reflexivity.
+    all: rewrite exec_declbools; sx.
+    all: destruct (all_matched_loop (VItem (IItems false (Some l))) (VItem w) wl (typ w) l (repeat false (length wl)) None None
+                     (repeat_length _ _)) as [u' [t' [f' Hl]]].
+    all: unfold est, tl_of, fb_of, outer_ic, inner_ic in Hl; cbn [app] in Hl; use_loop Hl; clear Hl.
+    all: destruct (all_matched rec2 l wl (repeat false (length wl))) as [[|]| | |]; sx; reflexivity.
   Qed.
 End ItemCollEquals.
 
@@ -684,7 +816,7 @@ Section TableTie.
   Proof. apply sem_contains_model; [reflexivity | exact fn_ic_contains]. Qed.
 
   Theorem iceq_tie rec lo w : sem_iceq tbl rec lo w = itemcoll_equals cfg_fixed rec (lst lo) w.
-  Proof. apply sem_iceq_model; [reflexivity | exact fn_ic_contains | exact fn_ic_equals]. Qed.
+  Proof. apply sem_iceq_model; first [reflexivity | exact fn_ic_equals | exact fn_ic_contains]. Qed.
 
   Theorem items_equal_tie_pw rec1 rec2 eqm it w :
     (forall a b, rec1 a b = rec2 a b) -> (forall k fs x, eqm k fs x = equals_method cfg_fixed rec2 k fs x) ->
@@ -742,7 +874,7 @@ Definition contains_loop := ltac:(inst ItGP.contains_loop).
 Definition contains_model := ltac:(inst ItGP.contains_model).
 Definition is_collection_call_nn := ltac:(inst ItGP.is_collection_call_nn).
 Definition sem_contains_model := ltac:(inst ItGP.sem_contains_model).
-Definition all_contained_loop := ltac:(inst ItGP.all_contained_loop).
+Definition all_matched_loop := ltac:(inst ItGP.all_matched_loop).
 Definition iceq_model := ltac:(inst ItGP.iceq_model).
 Definition sem_swap_model := ltac:(inst ItGP.sem_swap_model).
 Definition sem_iceq_model := ltac:(inst ItGP.sem_iceq_model).
